@@ -113,6 +113,13 @@ func (x *Exec) store(fr *frame, st *State, l *LocV, v Value) {
 			st.cells[*l.Cell] = v
 			return
 		}
+		if v.Loc != nil && len(v.L) == 0 {
+			// interior pointer stored into a field of a local aggregate
+			if v.Loc.Cell != nil {
+				panic(unsupported("pointer to a local variable stored into an aggregate"))
+			}
+			v = Value{T: v.T, L: []Term{x.asRef(v)}}
+		}
 		st.cells[*l.Cell] = c.StoreCell(cv, l.Steps, v)
 		return
 	}
@@ -187,8 +194,27 @@ func (x *Exec) nilCheck(fr *frame, st *State, l *LocV, pos token.Pos) {
 	x.safety(fr, st, "nil", pos, not(eq(l.Ref, intLit(0))))
 }
 
+// tryDeferredCall runs a conditionally registered deferred call; false when its operands were
+// never computed on the paths reaching this exit (the defer statement was not reached).
+func (x *Exec) tryDeferredCall(fr *frame, st *State, d *ssa.Defer) (ok bool) {
+	defer func() {
+		if r := recover(); r != nil {
+			if u, isU := r.(unsupported); isU && strings.Contains(string(u), "not computed in") {
+				ok = false
+				return
+			}
+			panic(r)
+		}
+	}()
+	x.call(fr, st, d, &d.Call)
+	return true
+}
+
 func (x *Exec) step(fr *frame, st *State, ins ssa.Instruction) {
 	c := x.c
+	if fr.con != nil && len(fr.con.Asserts) > 0 && fr.depth == 0 {
+		x.checkAsserts(fr, st, ins)
+	}
 	switch t := ins.(type) {
 	case *ssa.DebugRef:
 	case *ssa.Alloc:
@@ -355,8 +381,18 @@ func (x *Exec) step(fr *frame, st *State, ins ssa.Instruction) {
 		for i := len(fr.defers) - 1; i >= 0; i-- {
 			d := fr.defers[i]
 			if !d.Block().Dominates(fr.curBlk) {
-				if !x.benignDefer(d) {
-					panic(unsupported("conditional defer of " + d.Call.String()))
+				if x.benignDefer(d) {
+					continue
+				}
+				// a defer registered on some paths only: at this exit it either runs or
+				// does not (over-approximation: both outcomes, not correlated with the path)
+				ran := c.Fresh("deferran", SBool)
+				alt := st.clone()
+				alt.pc = c.Name("pc", and(st.pc, ran))
+				if x.tryDeferredCall(fr, alt, d) && alt.pc.S != "false" {
+					skip := st.clone()
+					skip.pc = c.Name("pc", and(st.pc, not(ran)))
+					*st = *x.mergeStates([]inEdge{{nil, skip}, {nil, alt}}, nil)
 				}
 				continue
 			}
